@@ -36,7 +36,7 @@ func (cache *dirCache) Store(target *core.BuildTarget, key []byte, files []strin
 	cacheDir := cache.getPath(target, key, "")
 	tmpDir := cache.getFullPath(target, key, "", "=")
 	cache.markDir(cacheDir, 0)
-	if err := fs.RemoveAll(cacheDir); err != nil {
+	if err := removeEntry(cacheDir, tmpDir); err != nil {
 		log.Warning("Failed to remove existing cache directory %s: %s", cacheDir, err)
 		return
 	}
@@ -44,6 +44,17 @@ func (cache *dirCache) Store(target *core.BuildTarget, key []byte, files []strin
 	if err := os.Rename(tmpDir, cacheDir); err != nil && !os.IsNotExist(err) {
 		log.Warning("Failed to create cache directory %s: %s", cacheDir, err)
 	}
+}
+
+// removeEntry removes an existing cache entry. It is renamed to its temporary name first so that it can
+// never be observed partially removed under its final name (e.g. if we are killed partway through).
+func removeEntry(cacheDir, tmpDir string) error {
+	if err := fs.RemoveAll(tmpDir); err != nil {
+		return err
+	} else if err := os.Rename(cacheDir, tmpDir); err != nil && !os.IsNotExist(err) {
+		return err
+	}
+	return fs.RemoveAll(tmpDir)
 }
 
 // storeFiles stores the given files in the cache, either compressed or not.
